@@ -185,6 +185,20 @@ pub fn c08(args: &Args, log: &mut Log) {
             }
         }
     }
+    // degenerate importing "files" (the root, the empty path, a path ending in `..`): no specifier exists for them, but
+    // the answer is an error value (or whatever specifier the function stands by) - never a panic
+    if shard == 0 {
+        for from in ["/", "", ".", "..", "/..", "a/..", "/."] {
+            for import in ["/a/b.ts", "a.ts", "../x/y.ts", "/"] {
+                total += 1;
+                if let Err(p) = guarded(|| ts_rs::verif::import_path(Path::new(from), Path::new(import))) {
+                    fails += 1;
+                    log.emit(json!({"ev": "fail", "monitor": "C08", "esm": esm, "cwd": cwd, "from": from, "import": import,
+                        "spec": null, "reason": format!("panic: {p}"), "class": "degenerate-importer"}));
+                }
+            }
+        }
+    }
     log.emit(json!({"ev": "summary", "monitor": "C08", "esm": esm, "cwd": cwd, "pairs": total, "ok_results": ok_results,
         "err_results": err_results, "above_root": above_root, "distinct_specifiers": distinct_specs.len(), "fails": fails,
         "fs_checked": fs_checked, "depth": depth, "bases": BASES, "sampled": sampled}));
